@@ -82,7 +82,7 @@ def gen_env(rng, idx, n_envs):
         hs = "random"
     return {
         "hashseed": hs,
-        "cwd": rng.choice(["files", "files", "deep", "root"]),       # where the process runs
+        "cwd": rng.choice(["files", "files", "deep", "root", "vendored"]),       # where the process runs
         "relative_opts": None,                                       # decided from cwd
         "stdin": rng.random() < 0.4,
         "TZ": rng.choice(["UTC", "America/Los_Angeles", "Asia/Kolkata", "Pacific/Kiritimati"]),
@@ -90,7 +90,7 @@ def gen_env(rng, idx, n_envs):
         "umask": rng.choice([0o022, 0o077, 0o002]),
         "noise": {f"NOISE_{rng.randrange(1000)}": str(rng.random()) for _ in range(rng.randint(0, 3))},
         "clock": float(rng.choice([946684800, 1600000000, 1893456000, 2000000001]) + rng.randrange(86400)),
-        "reuse": rng.choice([None, None, "A,B,A", "B,A"]),           # process reuse pattern
+        "reuse": rng.choice([None, None, "A,B,A", "B,A", "cd:B,A"]),  # process reuse pattern (cd: both by RELATIVE option paths)
     }
 
 
@@ -99,6 +99,11 @@ def materialise(spec, base):
     d = os.path.join(base, "files")
     os.makedirs(d, exist_ok=True)
     os.makedirs(os.path.join(base, "deep", "er", "dir"), exist_ok=True)
+    # a working directory that happens to contain directories named like the shipped template sets
+    for name in ("ads-templates", "templates"):
+        os.makedirs(os.path.join(base, "vendored", name, "stale"), exist_ok=True)
+        with open(os.path.join(base, "vendored", name, "stale", "NOTE.txt"), "w") as f:
+            f.write("stale vendored copy\n")
     abs_req = world.request_bytes(spec, d, relative_paths=False)
     rel_req = world.request_bytes(spec, d, relative_paths=True)
     with open(os.path.join(d, "req_abs.bin"), "wb") as f:
@@ -111,7 +116,8 @@ def materialise(spec, base):
 def launch(base, env, tag, other_base=None):
     """Run one environment; returns dict(digest, rc, reads, out_path, err)."""
     d = os.path.join(base, "files")
-    cwd = {"files": d, "deep": os.path.join(base, "deep", "er", "dir"), "root": "/"}[env["cwd"]]
+    cwd = {"files": d, "deep": os.path.join(base, "deep", "er", "dir"), "root": "/",
+           "vendored": os.path.join(base, "vendored")}[env["cwd"]]
     rel = env["cwd"] == "files" and not env.get("force_abs")
     req = os.path.join(d, "req_rel.bin" if rel else "req_abs.bin")
     out = os.path.join(base, f"out_{tag}.bin")
@@ -125,7 +131,13 @@ def launch(base, env, tag, other_base=None):
     args = [sys.executable, GENCLI, "--clock", repr(env["clock"]), "--count-file", cnt]
     stdin_data = None
     reuse = env.get("reuse")
-    if reuse and other_base:
+    if reuse and other_base and reuse.startswith("cd:"):
+        # both requests name their option files by the SAME relative strings (retry.json / service.yaml);
+        # the worker chdirs into each library's directory in turn
+        od = os.path.join(other_base, "files")
+        args += ["--cd", od, os.path.join(od, "req_rel.bin"), os.path.join(base, f"other_{tag}.bin"),
+                 "--cd", d, os.path.join(d, "req_rel.bin"), out]
+    elif reuse and other_base:
         od = os.path.join(other_base, "files")
         oreq = os.path.join(od, "req_abs.bin")
         seq = []
